@@ -192,13 +192,23 @@ def observe(P, post=None, max_steps=None, P_csv=None, quiet_logging=False):
             o['stage'] = 'input'
             inp = drive.read_input(path)
             o['stage'] = 'setup'
-            r = drive.build_reactor(inp)
+            r = drive.build_reactor(inp, write_output=True)
             o['steps'] = len(r.z) - 1
             if max_steps is not None and o['steps'] > max_steps:
                 o['outcome'] = 'setup_only'
                 return o
             o['stage'] = 'sweep'
             drive.sweep(r)
+            # a run is complete when its results are written: hot-spot
+            # analysis, summary tables, requested data tables
+            o['stage'] = 'postprocess'
+            env_ = __import__('vmon.env', fromlist=['x'])
+            env_.log_records()
+            try:
+                with drive.quiet():
+                    r.postprocess()
+            except SystemExit:
+                raise drive.Rejected('postprocess', env_.log_records())
         except drive.Rejected as e:
             o['stage'] = e.stage
             o['n_calc'] = hk.n['calc']
